@@ -185,13 +185,13 @@ package randomness
 //@     invariant forall v int :: 0 <= v && v < pow2(m-2) ==> patterns3[v] == ccnt(bits, n, m-2, v, 2, i-(m-1)+2)
 //@   loop 2
 //@     invariant 0 <= i && i <= mask1+1
-//@     invariant Phi1 == csqsum(bits, n, m, 0, i)
+//@     invariant real(S1) == csqsum(bits, n, m, 0, i) && S1 >= 0
 //@   loop 3
 //@     invariant 0 <= i && i <= mask2+1
-//@     invariant Phi2 == csqsum(bits, n, m-1, 1, i)
+//@     invariant real(S2) == csqsum(bits, n, m-1, 1, i) && S2 >= 0
 //@   loop 4
 //@     invariant 0 <= i && i <= mask3+1
-//@     invariant Phi3 == csqsum(bits, n, m-2, 2, i)
+//@     invariant real(S3) == csqsum(bits, n, m-2, 2, i) && S3 >= 0
 //@   assert end loop 1: emod(tmp, pow2(m)) == cpat(bits, n, i-(m-1), m)
 //@   assert end loop 1: emod(tmp, pow2(m-1)) == cpat(bits, n, i-(m-1)+1, m-1)
 //@   assert end loop 1: emod(tmp, pow2(m-2)) == cpat(bits, n, i-(m-1)+2, m-2)
